@@ -16,7 +16,7 @@ NoD == [m |-> 0, s |-> -1]                 \* absent number
 
 \* row: [day, payee, amt (signed effect on the statement: credit > 0, debit < 0), rate |-> [r, inv] or NoRate, sec (unsigned secondary amount or NoD), note]
 \* cfg: [atype, cols ("amount"|"creditdebit"), layout, delim, skip, datefmt, order ("old_to_new"|"new_to_old"), balance (BOOLEAN),
-\*       conv ("none"|"extract_pos"|"compute_pos"|"extract_pop"|"compute_pop"|"disabled")]
+\*       conv ("none"|"extract_pos"|"compute_pos"|"extract_pop"|"compute_pop"|"disabled"), ruleconv ("none"|"disabled")]
 NoRate == [r |-> NoD, inv |-> NoD]
 Primary == "USD"
 Secondary == "EUR"
@@ -28,7 +28,9 @@ Account == "Assets:Src"
 ShownAmount(cfg, row) == IF cfg.atype = "liability" THEN DecNeg(row.amt) ELSE row.amt
 
 \* ---------------------------------------------------------------- expected transaction of a row
-Converts(cfg, row) == cfg.conv \notin {"none", "disabled"} /\ row.rate # NoRate
+\* cfg.ruleconv: conversion given by a rewrite rule that matches every row ("none" = no such rule, "disabled" = the
+\* rule switches conversion off); a rule's conversion takes precedence over the account-wide default (cfg.conv)
+Converts(cfg, row) == cfg.ruleconv # "disabled" /\ cfg.conv \notin {"none", "disabled"} /\ row.rate # NoRate
 PriceOfPrimary(cfg) == cfg.conv \in {"extract_pop", "compute_pop"}
 \* the secondary amount: extracted from the row, or computed from the rate
 Transferred(cfg, row) ==
